@@ -5,11 +5,14 @@ import (
 	"encoding/json"
 	"fmt"
 	"go/ast"
+	"go/parser"
 	"go/token"
 	"go/types"
 	"os"
 	"path/filepath"
+	"regexp"
 	"sort"
+	"strconv"
 	"strings"
 
 	"golang.org/x/tools/go/packages"
@@ -76,22 +79,82 @@ func Load(repo, goarch string, overlay map[string][]byte) (*Prog, error) {
 		}
 		// else: the reverse renaming did not type-check (name clash): analyse the tree as it is
 	}
-	// extracted helpers are substituted for their calls (inline.go); twice, for a helper of a helper
-	for round := 0; round < 2; round++ {
-		iov, notes := p.inlineOverlay(overlay)
+	// extracted helpers are substituted for their calls (inline.go); up to three rounds, for a helper of a helper and several helpers in one statement
+	forceBlock := map[string]bool{}
+	allBlock := false
+	for round, attempts := 0, 0; round < 3 && attempts < 8; attempts++ {
+		iov, notes := p.inlineOverlay(overlay, forceBlock, allBlock)
 		if len(notes) == 0 {
 			break
 		}
 		p3, err3 := loadOnce(repo, goarch, iov)
 		if err3 != nil {
-			break // does not type-check: analyse the tree as it is
+			if os.Getenv("HPCHECK_DEBUG_INLINE") != "" {
+				fmt.Fprintln(os.Stderr, "inline: result does not type-check:", err3, notes)
+				for f, b := range iov {
+					_ = os.WriteFile("/var/tmp/inline_dbg_"+filepath.Base(f), b, 0o644)
+				}
+			}
+			if allBlock {
+				break // does not type-check in either form: analyse the tree as it is
+			}
+			// the flat form met a name of the caller: the callers in which the errors lie take the block form in the next attempt
+			added := false
+			for _, k := range errorDecls(err3.Error(), iov) {
+				if !forceBlock[k] {
+					forceBlock[k] = true
+					added = true
+				}
+			}
+			if !added {
+				allBlock = true
+			}
+			continue
+		}
+		if os.Getenv("HPCHECK_DEBUG_INLINE") == "2" {
+			for f, b := range iov {
+				_ = os.WriteFile("/var/tmp/inline_ok_"+filepath.Base(f), b, 0o644)
+			}
 		}
 		p3.Renamed = p.Renamed
 		p3.Inlined = append(p.Inlined, notes...)
 		p = p3
 		overlay = iov
+		round++
 	}
 	return p, nil
+}
+
+// errorDecls: the function declarations (declKey) that contain the positions named in a type-check error text.
+func errorDecls(msg string, overlay map[string][]byte) []string {
+	var out []string
+	seen := map[string]bool{}
+	for _, m := range regexp.MustCompile(`(/[^\s:]+\.go):(\d+):\d+`).FindAllStringSubmatch(msg, -1) {
+		file := m[1]
+		line, _ := strconv.Atoi(m[2])
+		src, ok := overlay[file]
+		if !ok {
+			continue
+		}
+		fset := token.NewFileSet()
+		f, err := parser.ParseFile(fset, file, src, parser.SkipObjectResolution)
+		if err != nil || f == nil {
+			continue
+		}
+		for _, d := range f.Decls {
+			fd, ok := d.(*ast.FuncDecl)
+			if !ok {
+				continue
+			}
+			if fset.Position(fd.Pos()).Line <= line && line <= fset.Position(fd.End()).Line {
+				if k := declKey(file, fd); !seen[k] {
+					seen[k] = true
+					out = append(out, k)
+				}
+			}
+		}
+	}
+	return out
 }
 
 func loadOnce(repo, goarch string, overlay map[string][]byte) (*Prog, error) {
